@@ -28,7 +28,9 @@ def url_grid(tier):
 
 
 HOST_GRID = grid.Grid("hostnames", [("host", HOSTS), ("wrap", HWRAP)], free=OPTS[:2])
-REDIR_GRID = grid.Grid("redirects", c15.SLOTS + [("x_ctrl", ["", "after-sep", "in-key", "in-target-scheme", "in-cache-marker"])], free=OPTS)
+# C15's grammar with only two of its six leading-white-space spellings (C07 has its own wrappers; the full slot makes d<=3 x 16 vectors take hours)
+REDIR_SLOTS = [(n, (m if n != "lead" else [m[0], m[3]])) for n, m in c15.SLOTS]
+REDIR_GRID = grid.Grid("redirects", REDIR_SLOTS + [("x_ctrl", ["", "after-sep", "in-key", "in-target-scheme", "in-cache-marker"])], free=OPTS)
 
 
 def host_of(result):
